@@ -64,17 +64,17 @@ CLAIMED.update({
 })
 CLAIMED.update({
  'C07': dict(cat='other', technique='BOUNDED stand-in: SMT verification conditions over the reals generated from the real LeastSquares<double> member functions with the dynamic-size Eigen members bound to fixed sizes (2 unknowns, 4 allocated rows, 3 data rows); ldlt().solve by assumed contract; never counted as proved',
-   text='BOUNDED (estimate size 2, 4 allocated rows, data size 3, double): from any prior state of the solver object the normal matrix and right-hand side are those of the current rows only, the Cholesky estimate satisfies the normal equations of a full-rank problem and does not depend on the prior state, an affine preconditioner is applied as Ac x + Bc, the weighted estimate satisfies the normal equations of the weighted rows. The SVD path, resizing, float and all other sizes are NOT decided.',
+   text='BOUNDED (estimate size 2, 4 allocated rows, data size 3, double): from any prior state of the solver object the normal matrix and right-hand side are those of the current rows only, the Cholesky estimate satisfies the normal equations of a full-rank problem and does not depend on the prior state, an affine preconditioner is applied as Ac x + Bc, setPreconditionner replaces the whole affine map (zero offset for the linear form), the weighted estimate satisfies the normal equations of the weighted rows. The SVD path, resizing, float and all other sizes are NOT decided.',
    note=TB_B + '; every obligation is labelled bounded in the evidence (coverage.bounded) and none is counted as discharged; JtJ.ldlt().solve(I) enters by the assumed contract adj/det', ref='DESIGN.md 9.8'),
 })
 CLAIMED.update({
  'C05': dict(cat='other', technique='BOUNDED stand-in: SMT verification conditions over the reals generated from the real FindRigidTransformationByLeastSquares<Vector3d>::estimate_ overloads (2 correspondences, solver members bound to fixed sizes), the least-squares solver used by contract; never counted as proved',
-   text='BOUNDED (2 correspondences, 3-D double points): for every parameter vector the row written for a correspondence is its linearised point-to-plane residual n.(s + w x s + t - q), the solver is sized for the number of correspondences, and the returned matrix is identity + skew(w) with translation t for the solver estimate (aligned and index-based overloads, any prior object state). Optimality of the estimate is C07; exact/O(t^2) recovery, preconditioning invariance, 2-D, float and homogeneous points are NOT decided.',
+   text='BOUNDED (2 correspondences, 3-D double points): for every parameter vector the row written for a correspondence is its linearised point-to-plane residual n.(s + w x s + t - q), the solver is sized for the number of correspondences, and the returned matrix is identity + skew(w) with translation t for the solver estimate (aligned and index-based overloads, any prior object state); setPreconditioner resets the solver preconditioner to diag(1/scale x3, 1 x3) unconditionally. Optimality of the estimate is C07; exact/O(t^2) recovery, preconditioning invariance, 2-D, float and homogeneous points are NOT decided.',
    note=TB_B + '; LeastSquares::estimateUsingSVD / setDataSize used by contract (specs/C05/meta.json); every obligation is labelled bounded in the evidence and none is counted as discharged', ref='DESIGN.md 9.8'),
 })
 CLAIMED.update({
  'C09': dict(cat='other', technique='BOUNDED stand-in: SMT verification conditions over the reals generated from the real NormalAndCurvatureEstimation<Vector3d>::compute, planeEstimation_ and flipNormalTowardOriginCoordinate (clouds of 2 / 3 points), the kd-tree search and the eigen-decomposition behind an assumed contract; never counted as proved',
-   text='BOUNDED (cloud of 2 points, 3-D double): the estimation step is run once per point for that point, the stored normal is +/- the eigenvector of the smallest eigenvalue, has unit length, faces the sensor origin (normal . point <= 0), the curvature is the smallest eigenvalue over the sum and lies in [0, 1/3]; from any prior state. planeEstimation_ (2 neighbours of 3 points) hands the covariance of the neighbours reported by the kd-tree to the eigen-solver and stores its results. What nanoflann and SelfAdjointEigenSolver return, planar exactness, rotation equivariance, 2-D, float and homogeneous points are NOT decided.',
+   text='BOUNDED (cloud of 2 points, 3-D double): the constructor stores the neighbourhood size asked for, the estimation step is run once per point for that point, the stored normal is +/- the eigenvector of the smallest eigenvalue, has unit length, faces the sensor origin (normal . point <= 0), the curvature is the smallest eigenvalue over the sum and lies in [0, 1/3]; from any prior state. planeEstimation_ (2 neighbours of 3 points) hands the covariance of the neighbours reported by the kd-tree to the eigen-solver and stores its results. What nanoflann and SelfAdjointEigenSolver return, planar exactness, rotation equivariance, 2-D, float and homogeneous points are NOT decided.',
    note=TB_B + '; planeEstimation_ enters by an assumed contract (ascending non-negative eigenvalues with positive sum, unit first eigenvector); std::copy over .data() read in column-major storage order; every obligation is labelled bounded and none is counted as discharged', ref='DESIGN.md 9.8'),
 })
 COMMON_NA = "the deciding computation is a third-party header-only kernel that contract-based verification cannot reach here: CBMC's C++ front end does not parse Eigen/nanoflann, the extractor covers fixed-size coefficient-wise Eigen only, and a contract on the kernel would have to be assumed in full, after which nothing of the property is left to prove; switching to testing or model checking would be a different technique family (DESIGN.md 5, 9.6)"
